@@ -181,7 +181,9 @@ func (w *world) base(r *emit.Rand, key string) any {
 		return &sctypes.QueryClaimableRewardsRequest{Address: a(), ValidatorAddress: val}
 	// ---- swap
 	case "swap.Msg.UpdateParams":
-		return &swaptypes.MsgUpdateParams{Authority: gov, Params: swaptypes.Params{InterfaceFeeRate: emit.Pick(r, "0.01", "0", "0.5", "0.999999999999999999", "1", "1.000000000000000001")}}
+		p, err := w.h.App.SwapKeeper.Params.Get(ctx)
+		must(err)
+		return &swaptypes.MsgUpdateParams{Authority: gov, Params: p}
 	case "swap.Msg.SwapExactAmountIn":
 		rt := w.genRoute(r, emit.Pick(r, "urise", "uusdc", "uatom"), 2)
 		return &swaptypes.MsgSwapExactAmountIn{Sender: a(), InterfaceProvider: emit.Pick(r, "", a()), Route: *rt,
